@@ -180,6 +180,11 @@ def fails_single(plugin, exe, case, timeout=30):
         return Failure("crash", case, impl, model, crash=crash, stderr=err[-6000:])
     if impl != model:
         return Failure("diverge", case, impl, model)
+    if hasattr(plugin, "reference"):
+        for i, l in enumerate(lines):
+            exp = None if l.startswith("case") else plugin.reference(l)
+            if exp is not None and i < len(impl) and impl[i] != exp:
+                return Failure("diverge", case, impl, ["(reference)"] + [exp], clause="independent reference disagrees with the implementation")
     return None
 
 
@@ -413,6 +418,12 @@ def check(plugin, pid, tier, seed):
             if g is not None:
                 known_hits.append(kf)
                 out_lines.append("KNOWN-FINDING: property=%s %s" % (pid, known[kf["key"]]))
+        if hasattr(plugin, "reference"):
+            rf, rstats = reference_pass(plugin, exe, allc, timeout)
+            stats["reference_checked"] = rstats
+            for g in rf:
+                if not any(g.case == h.case for h in kfails):
+                    kfails.append(g)
         if hasattr(plugin, "extra"):
             ex = plugin.extra({"exe": exe, "libdir": libdir, "tier": tier, "seed": seed, "rng": rng, "stats": stats,
                                "known": known, "out": out_lines, "tree": tree})
@@ -486,6 +497,35 @@ def check(plugin, pid, tier, seed):
     log("[%s] tier=%s seed=%d obligations=%d/%d K: %d cases (%d nontrivial, %d validated) violations=%d wall=%.1fs"
         % (pid, tier, seed, L["discharged"], L["obligations"], stats["evaluations"], stats["distinct_nontrivial"], stats["validated"], len(violations), wall))
     return 1 if violations else 0
+
+
+def reference_pass(plugin, exe, cases, timeout, limit=200000):
+    """independent property oracle (plugin.reference(line) -> expected output or None) judged on the
+    implementation alone: this is what exhibits a failing input when model and code agree but both are wrong"""
+    sel = []
+    nlines = 0
+    for c in cases:
+        if nlines > limit:
+            break
+        sel.append(c)
+        nlines += len(c)
+    lines, starts = flatten(sel)
+    impl, crash, err = core.run_impl(exe, lines, timeout=timeout)
+    fails = []
+    checked = 0
+    for i, l in enumerate(lines[:len(impl)]):
+        if l.startswith("case"):
+            continue
+        exp = plugin.reference(l)
+        if exp is None:
+            continue
+        checked += 1
+        if impl[i] != exp and len(fails) < 3:
+            f = Failure("diverge", [l], ["case", impl[i]], ["case", exp],
+                        clause="independent reference (%s) disagrees with the implementation" % getattr(plugin, "REFERENCE_NAME", "python oracle"))
+            f.name = "reference oracle " + getattr(plugin, "REFERENCE_NAME", "")
+            fails.append(f)
+    return fails, checked
 
 
 def run_parallel(plugin, exe, cases, timeout):
